@@ -4,4 +4,6 @@ set -e
 cd /verif/govc
 export GOFLAGS=-mod=mod GOPROXY=off
 mkdir -p /verif/bin
-go build -o /verif/bin/govc .
+# build beside the target and rename: safe while an older binary is running
+go build -o /verif/bin/govc.new .
+mv -f /verif/bin/govc.new /verif/bin/govc
